@@ -841,6 +841,16 @@ func (r *RigS) body(op *SOp) string {
 			}
 			data["milvus_connect_param"] = mp
 		}
+		switch {
+		case sp.Stray == "sasl" && !sp.Kafka:
+			data["kafka_connect_param"] = map[string]any{"enable_sasl": true, "sasl": map[string]any{"username": canaryKUser, "password": canaryKPass, "mechanisms": "PLAIN", "security_protocol": "SASL_SSL"}}
+		case sp.Stray == "milvus" && sp.Kafka:
+			data["milvus_connect_param"] = map[string]any{"username": canaryUser, "password": canaryPass, "token": canaryToken}
+		case sp.Stray == "both" && sp.Kafka:
+			data["milvus_connect_param"] = map[string]any{"uri": r.sc.Targets[sp.Target%2], "connect_timeout": 10, "username": canaryUser, "password": canaryPass, "token": canaryToken}
+		case sp.Stray == "both" && !sp.Kafka:
+			data["kafka_connect_param"] = map[string]any{"address": kafkaAddr, "topic": "cdc-topic", "enable_sasl": true, "sasl": map[string]any{"username": canaryKUser, "password": canaryKPass, "mechanisms": "PLAIN", "security_protocol": "SASL_SSL"}}
+		}
 		ci := map[string]any{"name": sp.Coll}
 		if sp.UseStart {
 			ci["use_start_position"] = true
